@@ -509,7 +509,7 @@ where
     let mut config = Config::default();
     config.cases = cases;
     config.failure_persistence = None;
-    config.max_shrink_iters = 2000;
+    config.max_shrink_iters = std::env::var("MV_MAX_SHRINK").ok().and_then(|v| v.parse().ok()).unwrap_or(2000);
     config.max_global_rejects = cases.saturating_mul(4).max(1024);
     config.verbose = 0;
     config.source_file = None;
